@@ -240,6 +240,7 @@ type parkedCall struct {
 	val       error
 	delivered bool
 	ev        chan string
+	ops       []string // the transaction's operations as Coq terms
 }
 
 // parkAlloc is the Allocator handed to the queue: the REAL allocator decides everything; an answer that is not
@@ -443,6 +444,7 @@ func runCase(c mqCase) (res runResult) {
 	lastObs := ""
 	for _, l := range c.Labels {
 		term := ""
+		built := "no_bt"
 		att := "no_at"
 		switch l.K {
 		case "build", "buildshut":
@@ -530,6 +532,10 @@ func runCase(c mqCase) (res runResult) {
 			}
 			if w.deferred {
 				res.NParked++
+				w.parked[len(w.parked)-1].ops = ops
+			}
+			if w.lastAtt != nil {
+				built = fmt.Sprintf("bt_ %d %s", l.R, cw.List(ops))
 			}
 		case "net":
 			if w.inCall == "" {
@@ -575,6 +581,7 @@ func runCase(c mqCase) (res runResult) {
 			}
 			if w.lastAtt != nil {
 				att = fmt.Sprintf("at_ %d %d true", pc.req, *w.lastAtt)
+				built = fmt.Sprintf("bt_ %d %s", pc.req, cw.List(pc.ops))
 				res.NAtt++
 			}
 			res.NDeliver++
@@ -609,9 +616,9 @@ func runCase(c mqCase) (res runResult) {
 		}
 		res.Labels = append(res.Labels, fmt.Sprintf("pl_ (%s) %s", term, cw.Bool(hint)))
 		res.Atts = append(res.Atts, att)
-		res.Obs = append(res.Obs, fmt.Sprintf("po_ %d %s %d %d %s %s (%s) %d %d %d", alloc.AllocatedForPeer(p),
-			cw.NList(q.VerifQueuedBlockSizes()), q.VerifQueuedNonEmpty(), phase, cw.List(evs), cw.List(wire), att, nWait, nReady, granted))
-		lastObs = fmt.Sprintf("po_ %d %s %d %d @EVENTS@ [] (no_at) %d %d %d", alloc.AllocatedForPeer(p),
+		res.Obs = append(res.Obs, fmt.Sprintf("po_ %d %s %d %d %s %s (%s) %d %d %d (%s)", alloc.AllocatedForPeer(p),
+			cw.NList(q.VerifQueuedBlockSizes()), q.VerifQueuedNonEmpty(), phase, cw.List(evs), cw.List(wire), att, nWait, nReady, granted, built))
+		lastObs = fmt.Sprintf("po_ %d %s %d %d @EVENTS@ [] (no_at) %d %d %d no_bt", alloc.AllocatedForPeer(p),
 			cw.NList(q.VerifQueuedBlockSizes()), q.VerifQueuedNonEmpty(), phase, nWait, nReady, granted)
 	}
 	// late subscriber events: wait until the event count has been stable for 10ms, then attribute them to a
@@ -817,6 +824,45 @@ func genCase(r *rng.R) mqCase {
 		if small {
 			c.Labels = append(c.Labels, mqLabel{K: "deliver"})
 		}
+	}
+	return c
+}
+
+// a backlog of at least two pending messages behind a held send, with block sizes mixed around the 512 KiB
+// message threshold (300K / 300K / 100K ...): a later small block must not be packed into an earlier message
+func genBacklog(r *rng.R) mqCase {
+	dg.reset(false)
+	var c mqCase
+	nreq := r.Range(1, 3)
+	for i := 1; i <= nreq; i++ {
+		c.Univ = append(c.Univ, uint64(i))
+	}
+	link := uint64(1)
+	c.Labels = append(c.Labels, mqLabel{K: "build", R: 1, Blocks: []mqBlock{{L: link, Size: uint64(r.Range(1, 2000)), Has: true}}})
+	if r.P(1, 2) {
+		c.Labels = append(c.Labels, mqLabel{K: "net", OK: true}) // connected: the goroutine is now held in SendMsg
+	}
+	n := r.Range(3, 7)
+	for i := 0; i < n; i++ {
+		link++
+		size := uint64(r.Range(250000, 330000))
+		if i >= 2 && r.P(1, 2) {
+			size = uint64(r.Range(50000, 150000))
+		}
+		if r.P(1, 10) {
+			size = uint64(r.Range(1, 3000))
+		}
+		l := mqLabel{K: "build", R: uint64(r.Range(1, nreq)), Blocks: []mqBlock{{L: link, Size: size, Has: true}}}
+		if r.P(1, 6) {
+			l.Status = "pause"
+		}
+		c.Labels = append(c.Labels, l)
+	}
+	for i := 0; i < 2*n+4; i++ {
+		c.Labels = append(c.Labels, mqLabel{K: "net", OK: r.P(9, 10)})
+	}
+	for i := 0; i < 6; i++ {
+		c.Labels = append(c.Labels, mqLabel{K: "net", OK: true})
 	}
 	return c
 }
@@ -1033,6 +1079,7 @@ func run(c *drv.Ctx) error {
 		{Name: "MISMATCH", Fn: "pcase_agrees"},
 		{Name: "MON16", Fn: "pcase_mon16"},
 		{Name: "MON15P", Fn: "pcase_mon15"},
+		{Name: "MON17F", Fn: "pcase_mon17"},
 	})
 	w.ShardSize = 50
 	w.Stats.Rule = "scripts of response-assembler transactions (blocks of 1B-400KiB with distinct links, extension payloads, statuses, also empty transactions) over 1-4 requests " +
@@ -1069,6 +1116,9 @@ func run(c *drv.Ctx) error {
 			for _, mc := range genSweep(c.R.Fork()) {
 				cases = append(cases, item{mc: mc, tag: "sweep"})
 			}
+		}
+		for i := 0; i < c.Count(40, 400); i++ {
+			cases = append(cases, item{mc: genBacklog(c.R.Fork()), tag: "backlog"})
 		}
 		for i := 0; i < (nsweep+3)/4; i++ {
 			for _, mc := range genParkSweep(c.R.Fork()) {
